@@ -139,52 +139,50 @@ def _lt(text, technique, note=""):
 
 
 LEVEL_TEXT = {
-    "C11": _lt("interleaving_deterministic: for any number of operations that write only to arrays they allocate themselves and for every schedule, the shared region is never written and each operation ends where it ends alone. The real code is run under the race detector with batches of concurrent operations on shared and derived frames; results are compared with the sequential ones.",
+    "C01": _lt("frame_condition / history_persistent / op_own_writes / any_history_persistent: in the allocation-ownership model of the nine operation models (sort, filter, slice, setColumn, copy, apply, distinct, groupBy, aggregate) no history of operations changes an array that existed before. The real code is tied to the model by re-observing every earlier frame (digest of all observations) after every step of generated histories.",
+               "Lean 4 proof (invariant over histories in a heap model) + differential correspondence",
+               "The Go memory model and slice aliasing are represented only by the ownership discipline; that each Go operation obeys it is validated by T2 (re-observation), not proved from the Go source."),
+    "C02": _lt("The evaluation of a Filter leaf is regenerated from today's source and proved equal to the spec for ALL cells: gen_kernel_semantics (every kernel of the five column packages adds exactly the spec's predicate to the mask), gen_leaf_semantics_partial (dispatch on comparator string and argument kind, table look-ups, errors, enum strictness = leafPred; excluded: float constants on int columns, which the code documents as truncated). filter_refines: the mirror of QFrame.filter/And/Or/Not with the shared mask and the inverse shortcut returns exactly index.filter sem for every clause tree and physical index; mirrorFilter_eq_spec_today: the executable mirror built from today's tables = the spec's keptRows. Every generated Filter call is compared with spec and mirror.",
+               "Lean 4 proof (translator-regenerated kernels, dispatch and tables proved against a row-wise spec; refinement of the clause-tree mirror) + differential correspondence"),
+    "C03": _lt("sort_perm / sort_sorted_full: the line-by-line mirror of internal/sort (pdqsort with heapsort fallback) returns a sorted permutation for every size, strict weak order and regime; gen_compare_semantics / sorter_less_eq_rowLess: the comparators regenerated from today's source are the spec's keyCmp for all cells and flag settings, and Sorter.Less over them is the spec's rowLess; gen_reject_semantics (Sort rejects exactly unknown columns). The exact permutation of the real sorter is compared with the mirror on adversarial inputs; Sort results are checked to be sorted permutations.",
+               "Lean 4 proof (unbounded induction over the sorter mirror; regenerated comparators) + exact differential correspondence"),
+    "C04": _lt("groupBy_partition: the mirror of the open-addressing table partitions the rows by key equality for every hash function, collision pattern and growth step; gen_hash_respects_equality (keys the regenerated comparator calls Equal get equal values from the regenerated Hash terms, for all cells and any byte hash), gen_agg_semantics (the built-in aggregations of today's source = the spec's on every non-empty group), gen_compare_keyEq. The real grouper is replayed exactly with injected hashes (incl. one run beyond 2^16 slots); Aggregate/QFrames are compared with the spec's groups.",
+               "Lean 4 proof (table invariant for any hash function; regenerated hash, comparator and aggregation terms) + differential correspondence",
+               "runtime.memhash is a parameter (any function of bytes and seed)."),
+    "C05": _lt("distinct_spec on the spec; Distinct uses the same table as GroupBy (partition theorem of C04, regenerated Hash/Compare terms); gen_distinct_semantics (rejects exactly unknown columns, also on empty frames). Results of the real code are checked to hold exactly one whole row per key class.",
+               "Lean 4 proof (shared with C04) + differential correspondence"),
+    "C06": _lt("setColumn_wf / setColumn_abs / applyFn1_rowwise and the C06Apply lemmas (replace in position or append last, other columns untouched); gen_apply_dispatch / gen_apply_loop (Apply's per-instruction dispatch and loop regenerated from source = applyS, stopping at the first failing instruction). Apply/FilteredApply/WithRowNums of the real code are compared exactly with the spec on derived frames, with a function catalogue defined identically in Go and Lean.",
+               "Lean 4 proof (frame invariant, refinement lemmas, regenerated dispatch) + differential correspondence"),
+    "C07": _lt("gen_function_semantics: every function of the default evaluation context, regenerated from today's source, equals the spec's evalUnary/evalBinary on all cells (64-bit wrap-around, nil-neutral concatenation); eval'_bookkeeping: the temp columns of Eval never collide with user columns and are all dropped, for every expression tree. Eval of the real code is compared exactly with the denotational spec under default, user and overriding contexts.",
+               "Lean 4 proof (regenerated function terms; temp-column choreography of the mirror) + differential correspondence"),
+    "C08": _lt("gen_guards_semantics: the validation prefixes of Slice/Select/Drop/Copy regenerated from today's source reject exactly the requests the spec rejects, for all requests; gen_checkname_semantics (CheckName = legalName on all byte strings); gen_new_guards_partial; C08Project lemmas (projections commute with observation); pointer_roundtrip. New/Select/Drop/Slice/Copy of the real code are compared exactly with newS/selectS/dropS/sliceS/copyS including every rejection rule.",
+               "Lean 4 proof (regenerated guard chains; projection lemmas) + differential correspondence"),
+    "C09": _lt("gen_equals_eq_spec: QFrame.Equals' shape checks and the five Column.Equals bodies regenerated from today's source equal equalsS on all pairs of well-formed frames; gen_stringAt_semantics / gen_append_semantics (the per-cell rendering used by ToCSV/String and ToJSON); equalsS is cell-wise equality (C09Equals). Equals of the real code is compared with the spec in both directions, typed views are cross-checked on every observation, rebuilt frames must be congruent, String() is compared with the frame.",
+               "Lean 4 proof (regenerated observation functions) + differential correspondence"),
+    "C10": _lt("gen_sticky_all: for every public operation the guard prefix regenerated from today's source returns a failed receiver unchanged (or carries / reports its error) before anything else, for all requests; gen_reject_semantics, gen_guards_semantics, applyS_stops_at_first_failing and the _err_iff characterisations of the spec. Every generated call, valid or malformed, must end in a frame or Err exactly as the spec decides (no panic, Len()=-1 on failure, no user callback after the first error); physical well-formedness is checked on every reachable frame through the hook.",
+               "Lean 4 proof (regenerated guard chains of all operations; error discipline of the spec) + differential correspondence over a malformed-argument stream"),
+    "C11": _lt("interleaving_deterministic / ops_interleaving_deterministic: any multiset of the nine operation models, under every schedule, never writes a shared array and each ends where it ends alone. The real code is run under the race detector with batches of concurrent operations on shared and derived frames; results are compared with the sequential ones.",
                "Lean 4 proof (all schedules, ownership discipline) + race-detector runs as execution-based validation",
                "PARTIAL: the theorem is about the ownership model; that the Go code obeys the discipline (no write to shared storage) is observed by the race detector and by C01's re-observation, not proved from the source. Go memory model, unsafe string views and math/rand's lock are outside the model."),
-    "C19": _lt("scan_text: the Column.Scan state machine reproduces any sequence of texts and NULLs with leading NULLs back-filled. ToSQL against a recording driver: statement text and arguments per row compared with insertText/toSqlS for every dialect option; ReadSQL of scripted result sets compared with readSqlS.",
-               "Lean 4 proof (scan state machine) + differential correspondence with a recording database/sql driver",
-               "database/sql argument conversion and the driver contract are assumed."),
-    "C17": _lt("bitset_spec for the 256-bit value set behind in/like/ilike on enums; histories over declared and derived enum columns at and around the cardinality limit and the word boundaries of the bit set are compared with the spec (declared order for <,<=,>,>= and Sort, strict rejection of undeclared values and constants, clean failure beyond 255 values, null distinct from every value).",
-               "Lean 4 proof (bit set) + differential correspondence over enum-heavy histories and ReadCSV"),
-    "C18": _lt("toUpper_spec: the custom ToUpper equals encode(map up s) for every string, case mapping and buffer size (unconditional after the RuneSelf repair). Matcher choice and matching of the real code are compared with the documented rule; string and enum columns must select the same rows.",
-               "Lean 4 proof (ToUpper refinement) + differential correspondence",
+    "C12": _lt("read_schedule_independent / any_two_schedules_agree: the mirror of the whole fastcsv reader returns the same rows, fields and error for every read schedule; read_render' / read_eq_spec' / read_render_no_final_newline / read_render_trailing_delim: reading a rendered document returns its fields and equals the RFC 4180 scanner (quoted fields may contain CR LF); columnToData_eq_spec / infer_spec: the mirror of the type inference equals the spec. The real reader and ReadCSV are compared exactly with the array-level mirror, with the proof model (documents up to 2500 bytes) and with the spec on generated documents x read schedules x configurations.",
+               "Lean 4 proof (simulation: any schedule = loaded buffer; read-back of rendered documents; type inference) + exact differential correspondence",
+               "strconv parsing is a parameter (oracle computed by the harness from the standard library)."),
+    "C13": _lt("parse_write / read_write: the byte-exact mirror of encoding/csv.Writer as ToCSV uses it is inverted by the RFC 4180 scanner and by the model of qframe's own reader for every read schedule (tocsv_read for the rows ToCSV produces); gen_stringAt_semantics (the cell strings regenerated from source). ToCSV output of the real code is parsed by the spec's scanner and must denote the frame; reading it back with ReadCSV must give the frame the property describes.",
+               "Lean 4 proof (writer mirror o reader model = identity; shared with C12) + semantic round-trip correspondence"),
+    "C14": _lt("tojson_parses / tojson_denotes: the mirror of ToJSON produces a text the RFC 8259 parser accepts and whose value is the array of row objects denoting the cells; quoted_parses (AppendQuotedString mirror, compared byte for byte with the real function); gen_append_semantics (per-cell bytes regenerated from source); number tokens: ryu_text_is_shortest (C16). ToJSON output of the real code is parsed by the spec's parser and must denote the frame record by record, for every prefix length of a sweep frame; ReadJSON must invert it.",
+               "Lean 4 proof (ToJSON mirror against an RFC 8259 parser; exact float semantics) + differential correspondence",
+               "encoding/json is trusted for ReadJSON's decoding."),
+    "C15": _lt("fail_iff_reached: on the array-level mirror of the CSV reader, for every document, schedule, buffer size and failing call number the reader ends with the failure iff the failing call was made; gen_sticky_all for the writers. Exhaustive fault positions against the real code: every call number of the reader, every byte offset of the writers (ToCSV, ToJSON), ReadJSON reader faults at every offset, failing Prepare/Exec statement and failing row of the SQL driver.",
+               "Lean 4 proof (fault propagation in the reader mirror) + exhaustive fault-position correspondence"),
+    "C16": _lt("ryu_text_is_shortest (QF.Props.C16Link): for EVERY finite non-zero float64 (either sign) and every buffer state, the text that the statement-by-statement mirror of the Ryu core (QF.Ryu64, over the multiplier tables regenerated from the source) followed by the appendF layout appends is the shortest positional decimal that round-trips (Num.isShortestRoundTrip: canonical form, parses back to the identical bits under IEEE nearest-even - Num.ofDecimal itself proved correctly rounded -, no decimal with fewer digits does, closest of that length), and any correct IEEE parser returns exactly the float for it. ryu_shortest: Ryu's precision lemma is proved for the 121/122-bit tables of this port by kernel-checked Stern-Brocot certificates over all 2048 exponent fields; the two floats where one multiplier product is off by one are treated exactly. The mirror is compared with the implementation (decimal, exponent, fast-path flag) on every generated float, and every output text of the real formatter is judged by the same executable definition and against strconv.FormatFloat.",
+               "Lean 4 proof (Ryu core end to end: mulShift64, logarithm approximations, divisibility tests, rounding interval, digit-removal loops, final rounding, trailing-zero flags, table precision, digit layout, link to the round-trip definition) + exact differential replay of the mirror",
+               "The theorem is about the mirror; that the mirror is the Go code is established by exact replay on every generated float (T2) and by the regenerated tables (T1), not by proof."),
+    "C17": _lt("gen_enum_undeclared / gen_enum_declared / gen_enum_sets_no_error (the enum filter rules read off the dispatcher regenerated from today's source), mkEnum_declared / mkEnum_derived / mkEnum_rank_lt_255 / enum_order_declared / enum_null_distinct on the spec, bitset_spec. Histories over declared and derived enum columns at and around the cardinality limit and the word boundaries of the bit set are compared with the spec through New, ReadCSV and ReadJSON.",
+               "Lean 4 proof (regenerated dispatcher; enum construction spec; bit set) + differential correspondence over enum-heavy histories"),
+    "C18": _lt("toUpper_spec: the custom ToUpper equals encode(map up s) for every string, case mapping and buffer size; like_correct / ilike_correct: the matcher chosen by NewMatcher's order of tests answers the declarative wildcard semantics for every pattern and string; gen_kernel_semantics for like/ilike. Matcher choice and matching of the real code are compared with the rule; string and enum columns must select the same rows.",
+               "Lean 4 proof (ToUpper refinement; matcher decision logic) + differential correspondence",
                "Regular-expression matching (Go regexp) and unicode.ToUpper are parameters supplied as oracle annotations."),
-    "C13": _lt("ToCSV output of the real code is parsed by the spec's RFC 4180 scanner and must denote the frame; reading it back with ReadCSV must give the frame the property describes. The scanner side rests on the C12 theorems (schedule independence, escaped field read back as its content).",
-               "Lean 4 proof (shared with C12) + semantic round-trip correspondence",
-               "The writer (encoding/csv) is not modelled: its output is judged by what it denotes. A theorem scan(render(row)) = row for every quoting choice is an open goal."),
-    "C14": _lt("ToJSON output of the real code is parsed by the spec's RFC 8259 parser (validity) and must denote the frame record by record; ReadJSON must invert it. Number tokens are judged by exact decimal-to-float arithmetic in Lean.",
-               "Lean 4 executable RFC 8259 / exact float semantics as oracle + formatter lemma of C16",
-               "quoted_parses: the mirror of AppendQuotedString yields, for every byte string, a token that the RFC 8259 string parser decodes to the string with invalid bytes as U+FFFD; the mirror is compared byte for byte with the real function. encoding/json is trusted for ReadJSON's decoding."),
-    "C16": _lt("layoutInt_spec: the integer layout of appendF writes old content ++ digits ++ zeros for every buffer state (any stale spare capacity). Every output of the real formatter on generated floats and buffer states is checked in Lean against the definition of shortest round-trip text (exact natural-number arithmetic: parses back to the identical bits under correct rounding, no shorter decimal does, closest of that length) and against strconv.FormatFloat. ryu_shortest_partial (QF.Props.C16Core): the statement-by-statement mirror of float64ToDecimal over the extracted tables (compared exactly with the implementation on every generated float) returns a decimal that is in the rounding interval, shortest, and closest of that length, for every finite non-zero float64 - given that the three mulShift64 products are exact floors; exactInt_spec: the exact-integer fast path is exactly right.",
-               "Lean 4 proof (formatter layout; Ryu core: mulShift64, logarithm approximations, divisibility tests, rounding interval, digit-removal loops, final rounding, trailing-zero flags) + executable Lean definition of shortest round trip as differential oracle",
-               "PARTIAL: the claim for all 2^64 floats rests on Ryu's precision lemma (floor(m*multiplier/2^shift) = floor(m*2^e2/10^e10) for the 121/122-bit multipliers), which is the explicit hypothesis of ryu_shortest_partial and is not proved here; it is decided by exact arithmetic on every generated float."),
-    "C12": _lt("read_schedule_independent / any_two_schedules_agree: the mirror of the whole fastcsv reader returns the same rows, fields and error for every read schedule (lock-step simulation against the fully loaded buffer); qscan_content: an escaped field is read back as its content. The real reader and ReadCSV are compared exactly with the L0 mirror and with the RFC 4180 scanner / ReadCSV spec on generated documents, schedules and configurations.",
-               "Lean 4 proof (simulation: any schedule = loaded buffer) + differential correspondence",
-               "strconv parsing is a parameter (oracle computed by the harness from the standard library). The proof model Core/CsvFull (subject of the schedule-independence and read-back theorems) is executed on every document of up to 2500 bytes as well."),
-    "C15": _lt("Fault enumeration against the reader model: for every call number at which the underlying reader fails, the model decides whether that call is reached; if it is, the fastcsv reader must end in failure and ReadCSV must return Err (never an error-free partial frame). Writers: for every byte offset at which the io.Writer starts failing, success may only be reported if everything was accepted. SQL: a failing Exec or a failing row fetch must surface as an error.",
-               "Lean 4 model of the reader with fault positions (theorems shared with C12) + exhaustive fault-position correspondence",
-               "Covered: CSV reader faults at every call, ToCSV/ToJSON writer faults at every byte offset, ToSQL failing statement, ReadSQL failing row. ReadJSON reader faults are an open goal."),
-    "C01": _lt("Kernel-checked theorems (frame_condition, history_persistent) that in the allocation/ownership model of the operations no history of operations can change an array that existed before; the real code is tied to the model by re-observing every earlier frame after every step of generated histories.",
-               "Lean 4 proof (invariant over histories in a heap model) + differential correspondence",
-               "The Go memory model and slice aliasing are represented only by the ownership discipline; that each operation obeys it is validated by T2, not proved from the Go source."),
-    "C02": _lt("filter_refines: for every clause tree and every duplicate-free index the mirror of QFrame.filter/And/Or/Not returns exactly index.filter sem. Spec-level correspondence of Filter on generated derived frames, all column types and comparator/argument kinds.",
-               "Lean 4 proof (refinement of a mirror model to a row-wise spec) + differential correspondence"),
-    "C03": _lt("sort_perm and sort_sorted for the line-by-line mirror of internal/sort/sorter.go, for every size, comparison function (strict weak order) and regime; compare_spec/lessKeys_swo for the Comparable tables; Sort results of the real code checked to be sorted permutations.",
-               "Lean 4 proof (unbounded induction over the sorter mirror) + differential correspondence"),
-    "C04": _lt("groupBy_partition for the mirror of the open-addressing table, for every hash function, collision pattern and growth step; Aggregate/QFrames of the real code compared with the spec's groups as multisets.",
-               "Lean 4 proof (table invariant, any hash function) + differential correspondence",
-               "runtime.memhash is a parameter (any function); that keys which compare Equal hash equally is proved from today's source for every cell of every column type (C04Hash.gen_hash_respects_equality over the regenerated Hash terms); the built-in aggregations of today's source are proved equal to the spec's on every non-empty group (C04Aggregations.gen_agg_semantics)."),
-    "C05": _lt("Distinct uses the same table as GroupBy (collectIx=false); the partition theorem of C04 gives one representative per key class; results of the real code are checked to be a sub-multiset with exactly one row per key class.",
-               "Lean 4 proof (shared with C04) + differential correspondence"),
-    "C06": _lt("setColumn_wf/setColumn_abs/applyFn1_rowwise for the frame mirror; Apply/FilteredApply/WithRowNums of the real code compared exactly with the spec on derived frames, with a catalogue of functions defined identically in Go and Lean.",
-               "Lean 4 proof (frame invariant + refinement lemmas) + differential correspondence"),
-    "C07": _lt("Eval of the real code compared exactly with the denotational spec (EArg.den) on generated expression trees; column bookkeeping lemmas shared with C06.",
-               "Lean 4 proof (setColumn lemmas) + differential correspondence", "The refinement theorem eval_refines for the temp-column choreography is an open goal (listed in the evidence)."),
-    "C08": _lt("pointer_roundtrip for the packed string pointers; New/Select/Drop/Slice/Copy of the real code compared exactly with newS/selectS/dropS/sliceS/copyS including every rejection rule.",
-               "Lean 4 proof (bit-level round trip) + differential correspondence"),
-    "C09": _lt("Equals of the real code compared with equalsS on pairs of derived frames (both directions and reflexivity); typed views cross-checked (ItemAt vs Slice vs Len) on every observation.",
-               "Lean 4 proof (frame abstraction lemmas) + differential correspondence"),
-    "C10": _lt("Every generated call, valid or malformed, must end in a frame or Err exactly as the spec decides (no panic, Len()=-1 on failure, errors sticky); the physical well-formedness predicate WF (hypothesis of the refinement theorems) is checked on every reachable frame through the hook.",
-               "Lean 4 proof (WF preservation lemmas) + differential correspondence over a malformed-argument stream"),
+    "C19": _lt("scan_refines_spec: the complete mirror of Column.Scan (five value kinds, coercions, NULL back-fill) equals the spec for homogeneous result sets; readback_frame: reading back what ToSQL wrote reproduces the frame (enums as strings); insertText_shape / placeholders_spec. ToSQL against a recording driver: statement text and arguments per row compared with the spec for every dialect option; ReadSQL of scripted result sets (reused row buffers, failing rows) compared with readSqlS.",
+               "Lean 4 proof (scan state machine, read-back, statement shape) + differential correspondence with a recording database/sql driver",
+               "database/sql argument conversion and the driver contract are assumed."),
 }
